@@ -1,6 +1,7 @@
 package main
 
 import (
+	"encoding/json"
 	"fmt"
 	"os"
 	"path/filepath"
@@ -40,20 +41,43 @@ func oracleRun(bin string, wall time.Duration, corpusPath string, order string, 
 	n := procSeq()
 	out := filepath.Join(scratch, "p", fmt.Sprintf("oracle.%d.json", n))
 	capf := filepath.Join(scratch, "p", fmt.Sprintf("ocap.%d", n))
+	progf := filepath.Join(scratch, "p", fmt.Sprintf("oprog.%d", n))
 	os.MkdirAll(filepath.Join(scratch, "p"), 0o755)
-	args = append(args, "-out", out, "-capture", capf)
-	env := append(os.Environ(), "GOMAXPROCS=1", "GODEBUG=")
+	args = append(args, "-out", out, "-capture", capf, "-progress", progf)
+	env := append(os.Environ(), "GOMAXPROCS=1", "GODEBUG=", "GOTRACEBACK=single")
 	o, err := run(filepath.Join(scratch, "p"), env, wall, bin, args...)
+	defer func() {
+		if !keep {
+			os.Remove(out)
+			os.Remove(capf)
+			os.Remove(progf)
+		}
+	}()
 	if err != nil {
 		cb, _ := os.ReadFile(capf)
-		fatal("oracle process failed: %v\n%s\n%s", err, o, tail(string(cb), 2000))
+		captured := string(cb)
+		if len(captured) > 8000 {
+			captured = captured[:4000] + "\n[...]\n" + captured[len(captured)-4000:]
+		}
+		if c := crashLine(captured); c != "" {
+			// the library killed the oracle process: report where (progress file)
+			var oo proto.OracleOut
+			oo.Order, oo.Hung = order, -1
+			pb, _ := os.ReadFile(progf)
+			lines := strings.Split(strings.TrimSpace(string(pb)), "\n")
+			if len(lines) >= 2 && json.Unmarshal([]byte(lines[0]), &oo.IDs) == nil {
+				at, _ := strconv.Atoi(lines[len(lines)-1])
+				oo.Crash, oo.CrashAt = c+"\n"+tail(captured, 1500), at
+				oo.Outcomes = make([]string, len(oo.IDs))
+				return oo
+			}
+		}
+		fatal("oracle process failed: %v\n%s\n%s", err, o, tail(captured, 2000))
 	}
 	var oo proto.OracleOut
 	if err := readJSON(out, &oo); err != nil {
 		fatal("oracle output: %v", err)
 	}
-	os.Remove(out)
-	os.Remove(capf)
 	return oo
 }
 
@@ -140,6 +164,11 @@ func buildOracle(b builds, cfg tierCfg) oracleInfo {
 			defer iw.Done()
 			defer func() { <-sem }()
 			o := oracleRun(b.ref, cfg.procWall, corpusPath, "canonical", []int{id})
+			if o.Crash != "" {
+				cc := oi.corpus.Calls[id]
+				fatal("%s(%q,%q) kills the process even when it is the only call of a fresh process (%s): an input-only crash is not a C13 matter, and the corpus cannot contain it",
+					cc.Fn, cc.Expr, cc.List, firstLine(o.Crash))
+			}
 			if len(o.Outcomes) == 0 {
 				fatal("isolated oracle call %d produced nothing", id)
 			}
@@ -171,6 +200,21 @@ func buildOracle(b builds, cfg tierCfg) oracleInfo {
 		if o.Output != 0 {
 			r := seqRecord(&oi.corpus, o.IDs, len(o.IDs)-1, ref, "output_written", build)
 			r.Violations = []proto.Violation{{Class: "output_written", Detail: fmt.Sprintf("%d bytes on stdout/stderr during a sequential pass (%s order)", o.Output, o.Order)}}
+			return r
+		}
+		if o.Crash != "" {
+			cid := o.IDs[o.CrashAt]
+			cc := oi.corpus.Calls[cid]
+			alone := oracleRun(b.ref, cfg.procWall, corpusPath, "canonical", []int{cid})
+			if alone.Crash != "" || alone.Hung >= 0 {
+				fatal("%s(%q,%q) kills the process even when it is the only call of a fresh process (%s): an input-only crash is not a C13 matter, and the corpus cannot contain it",
+					cc.Fn, cc.Expr, cc.List, firstLine(alone.Crash))
+			}
+			ref[cid] = alone.Outcomes[0]
+			r := seqRecord(&oi.corpus, o.IDs, o.CrashAt, ref, "crash", "ref")
+			r.Violations = []proto.Violation{{Class: "crash", Task: 0, Op: o.CrashAt, Fn: cc.Fn,
+				Detail:  fmt.Sprintf("sequential pass (%s order): the process died in %s(%q, %q) as call #%d (the same call alone in a fresh process returns): %s", o.Order, cc.Fn, cc.Expr, cc.List, o.CrashAt, firstLine(o.Crash)),
+				RaceLog: o.Crash}}
 			return r
 		}
 		if o.Hung >= 0 {
@@ -254,7 +298,13 @@ func buildOracle(b builds, cfg tierCfg) oracleInfo {
 	if oi.viol == nil {
 		// the instrumented build must reproduce the reference exactly; if the reference is
 		// itself consistent, a difference here can only be an instrumenter bug
+		if inst.Crash != "" || inst.Hung >= 0 {
+			oi.viol = check(inst, "plain")
+		}
 		for i, id := range inst.IDs {
+			if oi.viol != nil {
+				break
+			}
 			if inst.Outcomes[i] != ref[id] {
 				if r := check(inst, "plain"); r != nil {
 					// could also be history dependence that shows only here; let the
@@ -274,7 +324,9 @@ func buildOracle(b builds, cfg tierCfg) oracleInfo {
 	}
 	steps := make([]int64, n)
 	for i, id := range inst.IDs {
-		steps[id] = inst.Steps[i]
+		if i < len(inst.Steps) {
+			steps[id] = inst.Steps[i]
+		}
 	}
 	for id := range steps {
 		if steps[id] > cfg.maxStep {
@@ -302,7 +354,40 @@ type simAgg struct {
 	runsByProc                 map[string]map[int]int
 	callsUsed                  int
 	records                    []*proto.Record
+	crashes                    []crashInfo
 	mode                       string
+}
+
+type crashInfo struct {
+	build    string
+	proc     int
+	run      int
+	msg      string
+	captured string
+	free     bool
+}
+
+// crashRecord: the sim process died during run c.run; rebuild the record of everything
+// that process had executed (seeded workloads and policies) for replay / minimisation.
+func crashRecord(b builds, cfg tierCfg, c crashInfo) *proto.Record {
+	var recs []proto.RunRec
+	out := filepath.Join(scratch, "crashrecs.json")
+	if o, err := run(scratch, []string{"GOMAXPROCS=1"}, 2*time.Minute, b.plain, "records", "-seed", strconv.FormatUint(seed, 10), "-proc", strconv.Itoa(c.proc),
+		"-from", "0", "-runs", strconv.Itoa(c.run+1), "-corpus", filepath.Join(scratch, "corpus.json"),
+		"-expected", filepath.Join(scratch, "expected.json"), "-maxstep", strconv.FormatInt(cfg.maxStep, 10), "-out", out); err != nil {
+		fatal("records: %v\n%s", err, o)
+	}
+	if err := readJSON(out, &recs); err != nil || len(recs) != c.run+1 {
+		fatal("records: %v", err)
+	}
+	if c.free {
+		for i := range recs {
+			recs[i].Policy = proto.PolicyRec{Kind: "free"}
+		}
+	}
+	return &proto.Record{Property: propID, Class: "crash", Build: c.build, Seed: seed, Proc: c.proc, ReplayMode: "exact",
+		Prefix: recs[:c.run], Run: recs[c.run],
+		Violations: []proto.Violation{{Class: "crash", Task: -1, Op: -1, Detail: "the process died during simulated run " + strconv.Itoa(c.run) + ": " + c.msg, RaceLog: tail(c.captured, 3000)}}}
 }
 
 func newAgg() *simAgg {
@@ -399,7 +484,14 @@ func runSims(b builds, cfg tierCfg, free bool) *simAgg {
 				}
 				po := runHarness(binFor(b, j.build), gmp, cfg.procWall, args...)
 				mu.Lock()
-				if po.err != nil {
+				if po.crash != "" {
+					at := 0
+					if len(po.progress) > 0 {
+						at, _ = strconv.Atoi(po.progress[len(po.progress)-1])
+					}
+					agg.crashes = append(agg.crashes, crashInfo{j.build, j.proc, at, po.crash, po.captured, free})
+					stop = true
+				} else if po.err != nil {
 					if free && strings.Contains(po.captured, "fatal error: concurrent map") {
 						// a real data race that the runtime caught (free-running mode only)
 						agg.records = append(agg.records, &proto.Record{Property: propID, Class: "data_race", Build: j.build, Seed: seed, Proc: j.proc,
@@ -479,6 +571,10 @@ func doCheck(b builds, cfg tierCfg) int {
 	} else {
 		agg = runSims(b, cfg, degraded)
 		logf("simulation: %d runs in %d processes, %d ops, %.3g steps, %d preemptive switches", agg.runs, agg.procs, agg.ops, float64(agg.steps), agg.switches)
+		if len(agg.records) == 0 && len(agg.crashes) > 0 {
+			sort.Slice(agg.crashes, func(i, j int) bool { return agg.crashes[i].proc < agg.crashes[j].proc })
+			viol = crashRecord(b, cfg, agg.crashes[0])
+		}
 		if len(agg.records) > 0 {
 			sort.Slice(agg.records, func(i, j int) bool {
 				if agg.records[i].Proc != agg.records[j].Proc {
